@@ -30,11 +30,12 @@ type canonCtx struct {
 	fd      *ast.FuncDecl
 	selves  map[types.Object]bool
 	stored  map[types.Object]string // local/param -> field it is stored into
+	feeds   map[types.Object]string // parameter -> field whose constructor receives it first (paramsIn -> e2s)
 	defs    map[types.Object][]ast.Expr
 }
 
 func newCanonCtx(info *types.Info, fd *ast.FuncDecl, named *types.Named) *canonCtx {
-	cx := &canonCtx{named: named, info: info, fd: fd, selves: map[types.Object]bool{}, stored: map[types.Object]string{}, defs: map[types.Object][]ast.Expr{}}
+	cx := &canonCtx{named: named, info: info, fd: fd, selves: map[types.Object]bool{}, stored: map[types.Object]string{}, feeds: map[types.Object]string{}, defs: map[types.Object][]ast.Expr{}}
 	if r := recvObj(info, fd); r != nil && sameNamed(r.Type(), named) {
 		cx.selves[r] = true
 	}
@@ -70,6 +71,16 @@ func newCanonCtx(info *types.Info, fd *ast.FuncDecl, named *types.Named) *canonC
 						cx.defs[o] = append(cx.defs[o], rhs)
 					}
 				}
+				// self.f[, err] = NewSomething(p, ...): the parameter p is what field f was built from
+				if s, ok := l.(*ast.SelectorExpr); ok && i == 0 && rhs != nil && cx.selves[identObj(info, s.X)] {
+					if call, ok := unparen(rhs).(*ast.CallExpr); ok && len(call.Args) > 0 {
+						if p, ok := identObj(info, call.Args[0]).(*types.Var); ok && p != nil && cx.twoParamSets(p) {
+							if _, seen := cx.feeds[p]; !seen {
+								cx.feeds[p] = s.Sel.Name
+							}
+						}
+					}
+				}
 				if s, ok := l.(*ast.SelectorExpr); ok && rhs != nil && len(x.Rhs) == len(x.Lhs) {
 					if cx.selves[identObj(info, s.X)] {
 						if v := identObj(info, rhs); v != nil {
@@ -96,6 +107,30 @@ func newCanonCtx(info *types.Info, fd *ast.FuncDecl, named *types.Named) *canonC
 		return true
 	})
 	return cx
+}
+
+// twoParamSets: p is one of at least two parameter-set parameters of the function (paramsIn / paramsOut): only then
+// does it matter which of them a field was built from.
+func (cx *canonCtx) twoParamSets(p *types.Var) bool {
+	isSet := func(t types.Type) bool {
+		n := namedOf(t)
+		return n != nil && strings.HasSuffix(n.Obj().Name(), "Parameters")
+	}
+	if !isSet(p.Type()) {
+		return false
+	}
+	fn, ok := cx.info.Defs[cx.fd.Name].(*types.Func)
+	if !ok {
+		return false
+	}
+	sig := fn.Type().(*types.Signature)
+	k := 0
+	for i := 0; i < sig.Params().Len(); i++ {
+		if isSet(sig.Params().At(i).Type()) {
+			k++
+		}
+	}
+	return k >= 2
 }
 
 func (cx *canonCtx) canon(e ast.Expr, depth int) string {
@@ -127,6 +162,9 @@ func (cx *canonCtx) canon(e ast.Expr, depth int) string {
 		if f, ok := cx.stored[o]; ok {
 			return "<" + f + ">"
 		}
+		if f, ok := cx.feeds[o]; ok {
+			return "params(<" + f + ">)"
+		}
 		if ds := cx.defs[o]; len(ds) == 1 && ds[0] != nil {
 			return cx.canon(ds[0], depth+1)
 		}
@@ -156,6 +194,10 @@ func (cx *canonCtx) canon(e ast.Expr, depth int) string {
 					}
 				}
 			}
+		}
+		// the parameters a sub-protocol was built from: <e2s>.params
+		if x.Sel.Name == "params" && strings.HasPrefix(base, "<") && strings.HasSuffix(base, ">") {
+			return "params(" + base + ")"
 		}
 		return base + "." + x.Sel.Name
 	case *ast.CallExpr:
